@@ -220,6 +220,38 @@ def run(ctx):
             except Exception as ex:
                 spec_fail.append((kind, "initial-walker checks run", {"norb": norb, "nelec": ne, "restricted": restricted, "error": repr(ex)[:300]}))
 
+    # a determinant list with ONE determinant is a single-determinant trial: its own density matrix (no "rdm1" supplied) must give
+    # initial walkers that ARE that determinant (|overlap| = 1, variational energy), open shells and non-aufbau references included
+    for norb, ne, reference in ((4, (2, 1), "aufbau"), (4, (2, 1), "top"), (4, (3, 2), "aufbau"), (5, (3, 1), "top"), (4, (2, 2), "top")):
+        if not trials.supported("multislater", norb, ne):
+            continue
+        try:
+            trial, wd, desc = trials.make("multislater", rng, norb, ne, reference=reference, single=True)
+            wd = {k: v for k, v in wd.items() if k != "rdm1"}
+            sec, psi = trials.state("multislater", trial, wd, desc)
+            init_cases += 1
+            try:
+                w0 = trial.get_init_walkers(wd, 2, restricted=False)
+            except ValueError:
+                continue
+            up, dn = np.array(w0[0])[0], np.array(w0[1])[0]
+            rel = abs(trials.spec_overlap(sec, psi, up, dn)) / max(1e-300, np.linalg.norm(psi))
+            if not (rel > 0.999):
+                spec_fail.append(("multislater (one determinant)", "initial walkers of a single-determinant trial have |overlap| = 1",
+                                  {"norb": norb, "nelec": ne, "reference": reference, "determinant": [list(map(int, d)) for d in desc["dets"][0][:2]],
+                                   "relative_overlap": float(rel)}))
+                continue
+            ham, plain = trials.make_ham(rng, norb, nchol=2)
+            H = fock.hamiltonian(sec, plain["h0"], plain["h1"], plain["chol"])
+            evar = np.vdot(psi, H @ psi) / np.vdot(psi, psi)
+            hm = trial._build_measurement_intermediates(dict(ham), wd)
+            e = complex(np.array(trial.calc_energy(w0, hm, wd))[0])
+            if not wf.close(e, evar, 5e-6, 5e-6):
+                spec_fail.append(("multislater (one determinant)", "initial walkers of a single-determinant trial reproduce its variational energy",
+                                  {"norb": norb, "nelec": ne, "reference": reference, "got": str(e), "want": str(evar)}))
+        except Exception as ex:
+            spec_fail.append(("multislater (one determinant)", "initial-walker checks run", {"norb": norb, "nelec": ne, "reference": reference, "error": repr(ex)[:300]}))
+
     # spin-broken trial density matrices in a closed shell, restricted walkers: Neel-type product states (up and down orbitals
     # on disjoint or partly disjoint sites - exactly orthogonal pairs) and generic ones; the generator must return a walker with
     # overlap bounded away from zero or refuse
